@@ -7,11 +7,17 @@ props = sys.argv[2:] or [c["property_id"] for c in json.load(open(os.path.join(H
 st = subprocess.run(["git", "-C", "/repo", "status", "--porcelain", "--untracked-files=no"], capture_output=True, text=True).stdout.strip()
 if st:
     sys.exit("refusing: /repo has uncommitted changes:\n" + st)
-r = subprocess.run(["git", "-C", "/repo", "apply", "--3way", patch], capture_output=True, text=True)
+def _reset():
+    subprocess.run(["git", "-C", "/repo", "reset", "-q", "--hard", "HEAD"])
+r = subprocess.run(["git", "-C", "/repo", "apply", patch], capture_output=True, text=True)
 if r.returncode != 0:
-    r = subprocess.run(["git", "-C", "/repo", "apply", patch], capture_output=True, text=True)
-    if r.returncode != 0:
-        sys.exit("patch does not apply: " + r.stderr)
+    _reset()
+    r = subprocess.run(["git", "-C", "/repo", "apply", "--3way", patch], capture_output=True, text=True)
+    dirty = subprocess.run(["git", "-C", "/repo", "diff", "--name-only", "--diff-filter=U"], capture_output=True, text=True).stdout.strip()
+    if r.returncode != 0 or dirty:
+        _reset()
+        sys.exit("patch does not apply to /repo HEAD (needs a manual rebase): " + r.stderr[-200:])
+    subprocess.run(["git", "-C", "/repo", "reset", "-q"])
 try:
     fired = {}
     for p in props:
